@@ -16,6 +16,9 @@ K_COMMENT = 'C17-comment-counted-as-item'
 K_CASE = 'C17-parse-canonicalisation-case-sensitive'
 K_SETITEM = 'C17-setitem-no-canonicalisation'
 K_DANGLING = 'C17-dangling-and-accepted'
+K_MSTALE = 'C17-member-text-keeps-old-media-type'
+K_MCANON = 'C17-member-text-no-canonicalisation'
+K_MLOG = 'C17-member-rejected-in-logging-mode-empties-entry'
 
 
 def _quiet():
@@ -168,8 +171,9 @@ def unwrap(x):
     return x.value if type(x).__name__ == 'Item' and hasattr(x, 'value') else x
 
 
-def observe(ml, want, ML, reparse=True):
-    """every observation of the statement on a media list against the expected query structures; [(clause, detail, known id)]"""
+def observe(ml, want, ML, reparse=True, clean=True):
+    """every observation of the statement on a media list against the expected query structures; [(clause, detail, known id)];
+    clean=False: the reparse runs on the production parser's state as the preceding edits left it (nothing is emptied in between)"""
     bad = []
     text = ml.mediaText
     has_comment = '/*' in text
@@ -209,7 +213,8 @@ def observe(ml, want, ML, reparse=True):
     except Exception as e:
         bad.append(('bounded: indexing and item(i) work on every list', f'{type(e).__name__}: {e} ({text!r})', kid))
     if reparse:
-        _clean()
+        if clean:
+            _clean()
         try:
             again = ML(text)
             t2, l2 = again.mediaText, again.length
@@ -747,6 +752,8 @@ def media_pool():
     P += [('delete', t) for t in ('print', 'screen', 'tv', 'SCREEN', 'all', 'handheld')]
     P += [('setitem', 0, 'tv'), ('setitem', 1, 'print'), ('setitem', -1, 'screen'), ('setitem', 0, 'all')]
     P += [('text', i) for i in range(len(HTEXTS))]
+    # mediaText of ONE query of the list (the query objects of a history come from list parses, appendMedium and item assignment alike)
+    P += [('member', 0, 'screen', True), ('member', -1, 'print and (color)', True), ('member', 0, 'screen foo', False), ('member', -1, 'tv, print', False)]
     return P
 
 
@@ -794,6 +801,21 @@ class MModel:
                 self.hit = K_SETITEM
             self.e = canon(new)
             return True
+        if k == 'member':
+            i, text, ok = op[1], op[2], op[3]
+            if has_comment:
+                self.hit = K_COMMENT
+            if not -len(self.e) <= i < len(self.e) or not ok:
+                return False
+            s = read_query(text)
+            new = list(self.e)
+            new[i] = s
+            if simple_type(self.e[i]) is not None and simple_type(s) is None:
+                self.hit = K_MSTALE
+            if canon(new) != new:
+                self.hit = K_MCANON
+            self.e = canon(new)
+            return True
         if k == 'text':
             text, ok = HTEXTS[op[1]]
             if not ok:
@@ -833,7 +855,8 @@ def run_media_sequence(kind, seq, pool, cssutils):
         has_comment = '/*' in before
         model.hit = None
         accepted_want = model.apply(op, has_comment)
-        _clean()
+        # (nothing is emptied between the steps of one history: each edit and the final reparse run on the production parser's state
+        # as the preceding edits left it)
         try:
             if op[0] == 'append':
                 ml.appendMedium(op[1])
@@ -841,6 +864,8 @@ def run_media_sequence(kind, seq, pool, cssutils):
                 ml.deleteMedium(op[1])
             elif op[0] == 'setitem':
                 ml[op[1]] = op[2]
+            elif op[0] == 'member':
+                ml[op[1]].mediaText = op[2]
             else:
                 ml.mediaText = HTEXTS[op[1]][0]
             accepted = True
@@ -851,7 +876,8 @@ def run_media_sequence(kind, seq, pool, cssutils):
             return bad, model
         if accepted != accepted_want:
             what = {('append', False): "bounded: appending to a list that holds 'all' is rejected", ('delete', False): 'bounded: deleting an absent media type is rejected',
-                    ('text', False): 'bounded: a malformed mediaText is rejected', ('setitem', False): 'bounded: item assignment beyond the end is rejected'}.get(
+                    ('text', False): 'bounded: a malformed mediaText is rejected', ('setitem', False): 'bounded: item assignment beyond the end is rejected',
+                    ('member', False): 'bounded: a malformed query assigned to a query object is rejected'}.get(
                         (op[0], accepted_want), 'bounded: an edit of the pool is accepted')
             bad.append((what, f'step {step} {op!r} on {before!r}: accepted={accepted}', model.hit))
             if not model.hit:
@@ -860,9 +886,11 @@ def run_media_sequence(kind, seq, pool, cssutils):
             now = observe(ml, model.e, ML, reparse=False)
             now = [x for x in now if x[2] != K_ITER]
             if now or bad:
-                bad.extend((w, f'step {step} {op!r} on {before!r}: {d}', model.hit) for w, d, _ in now)
+                # (the class of K_MSTALE is the media type reported for the re-assigned query, nothing else)
+                bad.extend((w, f'step {step} {op!r} on {before!r}: {d}', model.hit if model.hit != K_MSTALE or w == 'bounded: item(i) gives the media type of the i-th query' else None)
+                           for w, d, _ in now)
                 return bad, model
-    for w, d, kid in observe(ml, model.e, ML):
+    for w, d, kid in observe(ml, model.e, ML, clean=False):
         bad.append((w, d, kid))
     if rule is not None:
         if ml.parentRule is not rule or rule.media is not ml:
@@ -932,8 +960,292 @@ def histories(ctx):
     ctx.known_finding(K_COMMENT, still)
     ctx.bounded.append({'name': 'edit histories', 'evaluations': n, 'distinct_nontrivial': len(kinds), 'exhaustive': True,
                         'rule': f'every sequence of length 1..{maxlen} over a pool of {len(pool)} edits (appendMedium of print/screen/tv/PRINT/all/a query with a feature, deleteMedium of '
-                                'print/screen/tv/SCREEN/all/an absent type, item assignment at 0/1/-1, mediaText assignment of 5 well-formed texts incl. a comment and one malformed text) '
+                                'print/screen/tv/SCREEN/all/an absent type, item assignment at 0/1/-1, mediaText assignment of 5 well-formed texts incl. a comment and one malformed text, mediaText '
+                                'assignment to the first / last QUERY of the list: a simple type, a query with a feature, a query followed by a stray token, two queries in one) '
                                 "on a stand-alone list, the list of an @media rule and the list of an @import rule; reference model: append existing moves to the end, append to 'all' and "
-                                'delete absent rejected with the list unchanged, delete removes exactly that type, all absorbs; all observations + owner rule text after the last step; '
+                                'delete absent rejected with the list unchanged, delete removes exactly that type, all absorbs, a malformed text for a member rejected with the list unchanged; '
+                                'all observations + owner rule text after the last step; the parser\'s handed-back tokens are emptied before a history, never inside it; '
                                 f'{steps} edits applied; distinct = (owner, final model state)',
                         'samples': [{'ops': [['text', 0], ['append', 'print'], ['delete', 'screen']]}], 'bound': f'length <= {maxlen}, pool of {len(pool)}, 3 owners'})
+
+
+# ----------------------------------------------------------------------------------------------------------------------------
+# mediaText assigned to a MEMBER query of a list, for every way in which the member object can have come into being
+
+MBASE = [(None, 'tv', ()), (None, 'print', (('color', None),)), (None, None, (('min-width', '10px'),))]
+MPLACE = ['screen', 'handheld', 'tty']
+ORIGINS = ['constructor', 'mediaText', 'media rule', 'import rule', 'media rule mediaText', 'import rule mediaText', 'appendMedium(text)', 'appendMedium(query)',
+           'item assignment(text)', 'item assignment(query)', 'stand-alone query']
+
+
+def _member_origin(origin, k, cssutils):
+    """(owner kind or None, owner rule or None, list or None, the k-th query object): a list that reads MBASE whose query objects were
+    created in the named way (by the list parser, by the rule parsers, by appendMedium / item assignment from a text or from a
+    stand-alone query object), or a stand-alone query"""
+    ML, MQ = cssutils.stylesheets.MediaList, cssutils.stylesheets.MediaQuery
+    texts = [render(s) for s in MBASE]
+    T = ', '.join(texts)
+    kind = rule = None
+    if origin == 'stand-alone query':
+        return None, None, None, MQ(texts[k])
+    if origin == 'constructor':
+        ml = ML(T)
+    elif origin == 'mediaText':
+        ml = ML('all')
+        ml.mediaText = T
+    elif origin in ('media rule', 'media rule mediaText'):
+        kind = 'media'
+        rule = cssutils.parseString('@media %s { a { left: 0 } }' % (T if origin == 'media rule' else 'all')).cssRules[0]
+        ml = rule.media
+        if origin != 'media rule':
+            ml.mediaText = T
+    elif origin in ('import rule', 'import rule mediaText'):
+        kind = 'import'
+        rule = cssutils.parseString('@import "x.css" %s;' % (T if origin == 'import rule' else 'all')).cssRules[0]
+        ml = rule.media
+        if origin != 'import rule':
+            ml.mediaText = T
+    elif origin in ('appendMedium(text)', 'appendMedium(query)'):
+        ml = ML()
+        for t in texts:
+            ml.appendMedium(t if origin.endswith('(text)') else MQ(t))
+    elif origin in ('item assignment(text)', 'item assignment(query)'):
+        ml = ML(', '.join(MPLACE))
+        for i, t in enumerate(texts):
+            ml[i] = t if origin.endswith('(text)') else MQ(t)
+    else:
+        raise AssertionError(origin)
+    if read_list(ml.mediaText) != MBASE or ml.length != len(MBASE):
+        raise AssertionError(f'oracle premise: the list built by {origin} reads {ml.mediaText!r}')
+    return kind, rule, ml, ml[k]
+
+
+def _member_case(toks, origin, k, raising, cssutils, kinds, fails):
+    import xml.dom
+    ML = cssutils.stylesheets.MediaList
+    text = ' '.join(toks)
+    good = ref_query(list(toks))
+    mode = 'raising' if raising else 'logging'
+    inp = {'origin': origin, 'member': k, 'base': ', '.join(render(s) for s in MBASE), 'mediaText': text, 'raiseExceptions': raising}
+    where = f'{text!r} assigned to member {k} of the list made by {origin} ({mode} mode)' if origin != 'stand-alone query' else f'{text!r} assigned to a stand-alone query {render(MBASE[k])!r} ({mode} mode)'
+
+    def fail(what, detail, kid=None):
+        fails.append((what, f'{where}: {detail}', kid, inp))
+
+    _clean()
+    kind, rule, ml, m = _member_origin(origin, k, cssutils)
+    try:
+        m.mediaText = text
+        accepted = bool(m.wellformed)
+        if accepted and not raising and not good:
+            # logging mode, no exception to go by: a text is rejected when the query says it is not well-formed or still reads exactly
+            # as before (a text taken in part that happens to read the same shows in the parses that follow)
+            try:
+                accepted = read_query(strip_comments(m.mediaText)) != MBASE[k]
+            except ValueError:
+                pass
+    except xml.dom.DOMException:
+        accepted = False
+    except Exception as e:
+        fail('bounded: assigning a token string to a query never crashes', f'{type(e).__name__}: {e}')
+        _clean()
+        return
+    # from here on nothing is emptied: every following parse runs on the production parser's state as the assignment left it
+    try:
+        if good:
+            s = read_query(text)
+            kinds.add(('wellformed', origin, k, s[0], s[1] is None, len(s[2])))
+            if not accepted:
+                fail('bounded: a well-formed query (reference grammar) assigned to a query object is accepted', 'rejected')
+                return
+            try:
+                got = read_query(strip_comments(m.mediaText))
+            except ValueError:
+                got = None
+            if got != s:
+                fail('bounded: every feature, value and their order survive parse and serialisation', f'query now {m.mediaText!r}')
+            # class of the recorded finding K_MSTALE: the object held a simple media type and the new text is not a simple media type
+            stale = simple_type(MBASE[k]) is not None and simple_type(s) is None
+            wt = simple_type(s) or ''
+            if (m.mediaType or '').lower() != wt:
+                fail('bounded: mediaType is the type of a simple query, empty otherwise', f'mediaType {m.mediaType!r} expected {wt!r}', K_MSTALE if stale else None)
+            new = list(MBASE)
+            new[k] = s
+            want = canon(new)
+            # class of the recorded finding K_MCANON: the result holds a simple media type twice or 'all' beside other entries
+            uncanon = want != new
+            sure = not stale and not uncanon
+            if ml is not None:
+                for what, detail, kid in observe(ml, want, ML, clean=False):
+                    if uncanon:
+                        kid = K_MCANON
+                    elif stale and what == 'bounded: item(i) gives the media type of the i-th query':
+                        kid = K_MSTALE
+                    fail(what, detail, kid)
+        else:
+            kinds.add(('malformed', origin, k, len(toks), max([j for j in range(len(toks)) if ref_query(list(toks[:j]))] or [0])))
+            if accepted:
+                left = _clean()
+                fail('bounded: a malformed query assigned to a query object is rejected',
+                     f'accepted, query now {m.mediaText!r}' + (f', list now {ml.mediaText!r}' if ml is not None else '') + (f'; tokens left behind for the next parse: {left!r}' if left else ''))
+                return
+            # class of the recorded finding K_MLOG: logging mode and the text was rejected
+            kid0 = None if raising else K_MLOG
+            sure = raising
+            want = list(MBASE)
+            try:
+                got = read_query(strip_comments(m.mediaText))
+            except ValueError:
+                got = None
+            if got != MBASE[k] or (m.mediaType or '').lower() != (simple_type(MBASE[k]) or '') or (raising and not m.wellformed):
+                fail('bounded: a rejected mediaText leaves the query as it was', f'query now {m.mediaText!r}, mediaType {m.mediaType!r}, wellformed {m.wellformed}', kid0)
+            if ml is not None:
+                for what, detail, kid in observe(ml, want, ML, clean=False):
+                    fail('bounded: a rejected mediaText of a member leaves the list as it was' if what.startswith('bounded: mediaText ') else what, detail, kid0 or kid)
+        if ml is None:
+            again = cssutils.stylesheets.MediaQuery('print and (color)')
+            if not again.wellformed or read_query(again.mediaText) != MBASE[1]:
+                fail('bounded: a valid query parses after an assignment to another query', f'{again.mediaText!r}')
+            return
+        if rule is not None and sure:
+            if ml.parentRule is not rule or rule.media is not ml:
+                fail('bounded: an owned list stays the list of its rule', f'parentRule {ml.parentRule!r}')
+            try:
+                got = read_list(_owner_text(kind, rule))
+            except ValueError as e:
+                got = str(e)
+            if got != want:
+                fail('bounded: the owner rule is serialised with the queries of its list', f'{rule.cssText!r} expected {want!r}')
+        if sure:
+            # the list keeps accepting valid edits, and an unrelated valid list parses
+            absorbed = any(simple_type(x) == 'all' for x in want)
+            try:
+                ml.appendMedium('projection')
+                done = True
+            except xml.dom.DOMException as e:
+                done = False
+                if not absorbed:
+                    fail('bounded: a valid edit after the assignment to a member is applied', f'appendMedium("projection") on {ml.mediaText!r}: {type(e).__name__}: {e}')
+            if done and absorbed and raising:
+                fail("bounded: appending to a list that holds 'all' is rejected", f'appendMedium("projection") accepted, list now {ml.mediaText!r}')
+            elif done and not absorbed:
+                for what, detail, kid in observe(ml, want + [(None, 'projection', ())], ML, clean=False):
+                    fail('bounded: a valid edit after the assignment to a member is applied', f'appendMedium("projection"): {what[9:]}: {detail}', kid)
+        try:
+            other = ML('print, screen')
+            if read_list(other.mediaText) != [(None, 'print', ()), (None, 'screen', ())] or other.length != 2 or not other.wellformed:
+                fail('bounded: an unrelated valid list parses after the assignment to a member', f"'print, screen' -> {other.mediaText!r}")
+        except Exception as e:
+            fail('bounded: an unrelated valid list parses after the assignment to a member', f"'print, screen': {type(e).__name__}: {e}")
+    finally:
+        _clean()
+
+
+def _member_worker(args):
+    strings, origins = args
+    cssutils = _quiet()
+    n = 0
+    kinds = set()
+    fails = []
+    try:
+        for toks in strings:
+            for origin in origins:
+                for k in range(len(MBASE)):
+                    for raising in (True, False):
+                        cssutils.log.raiseExceptions = raising
+                        n += 1
+                        _member_case(toks, origin, k, raising, cssutils, kinds, fails)
+        # keep at most a few failures per clause and class (the smallest inputs), the reporter caps again
+        best = {}
+        for f in fails:
+            best.setdefault((f[0], f[2]), []).append(f)
+        fails = [f for lst in best.values() for f in sorted(lst, key=lambda f: (len(repr(f[3])), f[1]))[:3]]
+    finally:
+        cssutils.log.raiseExceptions = True
+    return n, kinds, fails
+
+
+def member_strings(depth, vlen, mutlen):
+    """every token string of 0..depth tokens, every well-formed list text of <= vlen tokens generated from the grammar with all its one-token
+    extensions and deletions, and with all one-token replacements and insertions for those of <= mutlen tokens"""
+    strings = set()
+    for L in range(0, depth + 1):
+        strings.update(itertools.product(ALPHABET, repeat=L))
+    n_exh = len(strings)
+    for v in _valid_strings(vlen):
+        strings.add(v)
+        for a in ALPHABET:
+            strings.add(v + (a,))
+        for i in range(len(v)):
+            strings.add(v[:i] + v[i + 1:])
+            if len(v) <= mutlen:
+                for a in ALPHABET:
+                    strings.add(v[:i] + (a,) + v[i + 1:])
+                    strings.add(v[:i] + (a,) + v[i:])
+    return sorted(strings), n_exh
+
+
+def member_edits(ctx):
+    """a text assigned to ONE query of a list (ml[k].mediaText = text): a malformed query is rejected wherever it is offered, a
+    well-formed one replaces exactly that query; either way the list's text reparses to an equal list, the list takes a further
+    valid edit and an unrelated list parses - all on the parser state the assignment left behind"""
+    cssutils = _premise()
+    for s in MBASE:
+        if read_query(render(s)) != s:
+            raise AssertionError('oracle premise: base queries')
+    core_b, ext_b = ((2, 6, 0), (3, 7, 0)) if ctx.tier == 'quick' else ((3, 8, 0), (4, 9, 7))
+    ext_origins = ['constructor', 'stand-alone query'] if ctx.tier == 'quick' else ['constructor', 'media rule', 'stand-alone query']
+    core, _ = member_strings(*core_b)
+    ext, n_exh = member_strings(*ext_b)
+    depth, vlen, mutlen = ext_b
+    rest = sorted(set(ext) - set(core))
+    k = 4 * (ctx.jobs or 1)
+    res = _run_pool(ctx, _member_worker, [(c, ORIGINS) for c in _chunks(core, k)] + [(c, ext_origins) for c in _chunks(rest, k)])
+    n = sum(r[0] for r in res)
+    kinds = set().union(*[r[1] for r in res])
+    _report(ctx, [f for r in res for f in r[2]])
+    ML = cssutils.stylesheets.MediaList
+    _clean()
+    try:
+        m = ML('tv, print')
+        m[0].mediaText = 'print and (color)'
+        still = (m[0].mediaType or '') != '' or m.item(0) != ''
+    except Exception:
+        still = False
+    ctx.known_finding(K_MSTALE, still)
+    try:
+        m = ML('tv, print')
+        m[0].mediaText = 'print'
+        still = ML(m.mediaText).length != m.length
+    except Exception:
+        still = False
+    ctx.known_finding(K_MCANON, still)
+    try:
+        cssutils.log.raiseExceptions = False
+        m = ML('tv, print')
+        m[0].mediaText = 'tv foo'
+        try:
+            still = read_list(m.mediaText) != [(None, 'tv', ()), (None, 'print', ())]
+        except ValueError:
+            still = True
+    except Exception:
+        still = False
+    finally:
+        cssutils.log.raiseExceptions = True
+        _clean()
+    ctx.known_finding(K_MLOG, still)
+    ctx.bounded.append({'name': 'texts assigned to a member query', 'evaluations': n, 'distinct_nontrivial': len(kinds), 'exhaustive': True,
+                        'rule': f'{len(core)} token strings (every string of 0..{core_b[0]} tokens over {ALPHABET!r}; every well-formed list text of <= {core_b[1]} tokens from the grammar with its '
+                                f'one-token extensions and deletions) assigned as mediaText to each of the '
+                                f'{len(MBASE)} queries (simple type, typed query with a feature, feature-only query) of a list that reads {", ".join(render(s) for s in MBASE)!r}, the query objects '
+                                f'having been created in {len(ORIGINS)} ways ({"; ".join(ORIGINS)}), in raising and logging mode; for the origins {ext_origins!r} {len(rest)} strings more (every string of 0..{depth} '
+                                f'tokens ({n_exh}), well-formed texts of <= {vlen} tokens with extensions and deletions' + (f', replacements and insertions for <= {mutlen} tokens' if mutlen else '') +
+                                '); reference recogniser decides: malformed => rejected (DOM exception / '
+                                'wellformed False), query and list as before; well-formed => exactly that query replaced, mediaType follows; then, WITHOUT emptying the production parser\'s '
+                                'handed-back tokens: all list observations incl. reparse of mediaText, owner rule text, appendMedium of a fresh type applied, an unrelated list parses; '
+                                'distinct = (verdict, origin, member, query shape | tokens, longest well-formed prefix)',
+                        'samples': [{'origin': 'media rule', 'member': 0, 'mediaText': 'print color', 'expected': 'rejected, list unchanged, next parse unaffected'},
+                                    {'origin': 'constructor', 'member': 1, 'mediaText': 'print and ( color ) , print', 'expected': 'rejected'}],
+                        'bound': f'{core_b[0]} tokens exhaustively and neighbourhood of well-formed texts of <= {core_b[1]} tokens for all {len(ORIGINS)} origins, {depth} tokens / <= {vlen} tokens for {len(ext_origins)} origins; '
+                                 f'one base list of {len(MBASE)} queries; one assignment per evaluation '
+                                 '(longer mixed sequences: edit histories)'})
